@@ -1074,7 +1074,7 @@ class InterpExpr:
         if attr == 'logger':
             return LoggerV()
         ft = self.ts.field_type(cls, attr)
-        if ft is None:
+        if ft is None and self.ct.find_method(cls, attr) is None:
             ic = self.init_constant(obj, attr)
             if ic is not NotImplemented:
                 return ic
@@ -2567,7 +2567,7 @@ class InterpCall:
                 if n == key:
                     return EnumMember(cname, n, code, val)
             self.partial(False, 'KeyError', line)
-        if not (isinstance(key, SV) and key.ty == STR):
+        if not (isinstance(key, SV) and (key.ty == STR or key.ty == TOpt(STR))):
             # non-string keys are never member names
             self.partial(False, 'KeyError', line)
             raise Unsupported('Enum class subscript with a non-string key in spec mode')
